@@ -110,6 +110,9 @@ class Frame(AV):
 
     def clone(self, **kw):
         f = Frame(self.cols, self.order, self.prefix, self.open, self.space, self.row, self.name)
+        for k_, v_ in self.__dict__.items():
+            if k_ not in f.__dict__ or k_ in ("is_empty", "alloc", "int_columns"):
+                f.__dict__[k_] = v_
         f.notes = list(self.notes)
         f.filters = list(self.filters)
         f.written = set(self.written)
